@@ -56,6 +56,8 @@ type session struct {
 	sentReset  bool
 	// logonNotified is set when the application has been told of a logon and not yet of the logout.
 	logonNotified bool
+	// sentLogonSeqNum is the MsgSeqNum of the Logon sent last while logging on.
+	sentLogonSeqNum int
 	// heartbeatDue: a Heartbeat fell due while a test request was pending (cleared by every send).
 	heartbeatDue atomic.Bool
 	stopOnce     sync.Once
@@ -219,11 +221,15 @@ func (s *session) sendLogonInReplyTo(setResetSeqNum bool, inReplyTo *Message) er
 		// A Logon sent by an established session (ResetSeqTime, or the answer to a Logon received inside
 		// the session): what is queued was accepted, numbered and persisted while logged on. It goes out
 		// under its own numbers ahead of the Logon (which may reset the store); it is not thrown away.
-		return s.flushAndSendInReplyTo(logon, inReplyTo)
+		if err := s.flushAndSendInReplyTo(logon, inReplyTo); err != nil {
+			return err
+		}
+	} else if err := s.dropAndSendInReplyTo(logon, inReplyTo); err != nil {
+		return err
 	}
 
-	if err := s.dropAndSendInReplyTo(logon, inReplyTo); err != nil {
-		return err
+	if seqNum, err := logon.Header.GetInt(tagMsgSeqNum); err == nil {
+		s.sentLogonSeqNum = seqNum
 	}
 
 	return nil
@@ -619,6 +625,10 @@ func (s *session) handleLogon(msg *Message) error {
 		if err := s.sendLogonInReplyTo(resetSeqNumFlag.Bool(), msg); err != nil {
 			return err
 		}
+		// Tag 789 is judged against the number of our reply: a message the application has sent since the
+		// Logon arrived (from its FromAdmin callback, or from another goroutine) took a number below it and
+		// was dropped from the queue - the counterparty has not seen it.
+		nextSenderMsgNumAtLogonReceived = s.sentLogonSeqNum
 	}
 	s.sentReset = false
 
